@@ -1,5 +1,207 @@
-import Plonk.Model.Codec
+/-
+  C17 — checked decoders are total, bounded and accept only well-formed data.
+
+  Totality: every decoder of `Plonk/Model/{Bls,Verifier,Codec}.lean` is a Lean `def` accepted by the
+  kernel through structural recursion only (`readG1s`, `readScalars`, `commitKeyFromRaw.go`,
+  `PKeyRaw.fromBytes.go`, `commitKeyFromCompressed.go` recurse on a `Nat` counter; everything else is
+  non-recursive), without `partial`, so each of them returns a value (`some/none`, `.ok/.error`) on
+  every input list.  Boundedness is stated as *work bounds*: whatever a decoder returns is backed by
+  input bytes that were present — nothing is allocated from a length field before the bytes behind it
+  have been checked to exist (`*_bound`, and the length clauses of the `*_wf` theorems).
+
+  Well-formedness: `G1.Valid p` = identity, or coordinates `< P` on the curve `y² = x³ + 4`;
+  `torsionFree` = `[r]p = O` (prime-order subgroup).  `ProofM.WF`, `VKey.WF`, `PKeyRaw.WF` collect the
+  per-field statements.  For the two `G2` points of an opening key, on-curve follows from the
+  decoder's own check of the square root it computed.  None of these needs the input to be a byte
+  list.
+
+  All theorems are full.  Not covered: that the entries of the vanishing-polynomial evaluations are
+  non-zero as a consequence of the closed form (`pkey_wf` gives the closed form, `prover_wf` gives
+  non-zero from the explicit check of `Prover::new`).
+-/
+import Plonk.Proofs.CodecExamples
+import Plonk.Proofs.CodecAllBytes
+
+-- sequential elaboration (thread creation fails under the memory cap of the shared machine)
+set_option Elab.async false
+
 namespace Plonk.Props.C17
-open Plonk
+open Plonk Plonk.CodecEx
+
 theorem placeholder_consts : DOMAIN_SIZE = 172 ∧ USIZE_MAX = 2 ^ 64 - 1 := by decide
+
+/-! ### work bounds of the two readers -/
+
+/-- `readG1s k` returns exactly `k` points and consumes exactly `48·k` bytes, which were present -/
+theorem readG1s_bound {k : Nat} {bs r : List Nat} {ps : List G1} (h : readG1s k bs = some (ps, r)) :
+    ps.length = k ∧ r.length + 48 * k = bs.length ∧ r = bs.drop (48 * k) :=
+  ⟨(readG1s_decode h).1, (readG1s_decode h).2.1, (readG1s_decode h).2.2.1⟩
+
+example : readG1s 2 ([G1.gen, .inf].flatMap G1.toCompressed ++ [7]) = some ([G1.gen, .inf], [7]) :=
+  readG1s_encode [G1.gen, .inf] [7] (by
+    intro p hp; simp at hp; rcases hp with rfl | rfl
+    · exact gen_ok
+    · exact inf_ok)
+
+/-- `readScalars k` returns exactly `k` canonical scalars and consumes exactly `32·k` bytes -/
+theorem readScalars_bound {k : Nat} {bs ss r : List Nat} (h : readScalars k bs = some (ss, r)) :
+    ss.length = k ∧ r.length + 32 * k = bs.length ∧ r = bs.drop (32 * k) ∧ ∀ s ∈ ss, s < R :=
+  ⟨(readScalars_decode h).1, (readScalars_decode h).2.1, (readScalars_decode h).2.2.1, (readScalars_decode h).2.2.2.1⟩
+
+example : readScalars 2 ([5, 6].flatMap scalarBytesLE ++ [7]) = some ([5, 6], [7]) :=
+  readScalars_encode [5, 6] [7] (by intro x hx; simp at hx; rcases hx with rfl | rfl <;> decide +kernel)
+
+/-! ### group elements and scalars -/
+
+/-- `G1Affine::from_bytes`: accepted ⇒ 48 bytes, reduced coordinates, on curve, prime-order subgroup -/
+theorem g1_compressed_wf {bs : List Nat} {p : G1} (h : G1.fromCompressed? bs = some p) :
+    bs.length = 48 ∧ p.Valid ∧ p.onCurve = true ∧ p.torsionFree = true := by
+  obtain ⟨v, t⟩ := G1.fromCompressed_wf h
+  refine ⟨G1.fromCompressed?_length h, v, ?_, t⟩
+  cases p with
+  | inf => rfl
+  | aff x y => exact v.2.2
+
+example : G1.fromCompressed? G1.gen.toCompressed = some G1.gen :=
+  G1.fromCompressed_toCompressed gen_valid gen_torsionFree
+
+/-- canonical scalars only -/
+theorem scalar_wf {bs : List Nat} {x : Nat} (h : scalarFromBytes? bs = some x) : bs.length = 32 ∧ x < R :=
+  ⟨scalarFromBytes_length h, scalarFromBytes_lt h⟩
+
+example : scalarFromBytes? (scalarBytesLE 5) = some 5 := scalarFromBytes_scalarBytesLE (by decide +kernel)
+
+/-- raw (Montgomery) points: flag ∈ {0,1}, limbs `< P`, canonical identity, on curve, torsion free -/
+theorem raw_wf {bs : List Nat} {p : G1} (h : G1.fromRawChecked bs = some p) :
+    bs.getD 96 0 ≤ 1 ∧ bytesToNatLE (bs.take 48) < P ∧ bytesToNatLE ((bs.drop 48).take 48) < P ∧
+    (bs.getD 96 0 = 1 → p = .inf ∧ bytesToNatLE (bs.take 48) = 0 ∧ bytesToNatLE ((bs.drop 48).take 48) = MONT_R) ∧
+    (bs.getD 96 0 = 0 → p = .aff (pmul (bytesToNatLE (bs.take 48)) MONT_RINV)
+        (pmul (bytesToNatLE ((bs.drop 48).take 48)) MONT_RINV)) ∧
+    p.Valid ∧ p.torsionFree = true :=
+  G1.fromRawChecked_wf h
+
+example : G1.fromRawChecked G1.gen.toRaw = some G1.gen := G1.fromRawChecked_toRaw gen_valid gen_torsionFree
+
+/-! ### verifier side -/
+
+/-- accepted proofs: every point reduced, on curve, in the subgroup; every evaluation `< R`;
+    1008 bytes were present -/
+theorem proof_wf {bs : List Nat} {p : ProofM} (h : ProofM.fromBytes? bs = some p) :
+    (∀ q ∈ p.points, q.Valid ∧ q.torsionFree = true) ∧ (∀ s ∈ p.ev.toList, s < R) ∧ 1008 ≤ bs.length := by
+  obtain ⟨wf, hl⟩ := ProofM.fromBytes_wf h
+  exact ⟨wf.1, wf.2, hl⟩
+
+example : ProofM.fromBytes? (exProof.toBytes ++ [1, 2, 3]) = some exProof :=
+  ProofM.fromBytes_toBytes_append exProof_wf _
+
+/-- accepted verifier keys: `n < 2^64`, the fifteen commitments reduced, on curve, in the subgroup -/
+theorem vkey_wf {bs : List Nat} {k : VKey} (h : VKey.fromBytes? bs = some k) :
+    k.n < 2 ^ 64 ∧ (∀ q ∈ k.points, q.Valid ∧ q.torsionFree = true) ∧ 968 ≤ bs.length := by
+  obtain ⟨wf, hl⟩ := VKey.fromBytes_wf h
+  exact ⟨wf.1, wf.2, hl⟩
+
+example : VKey.fromBytes? (exVKey 4).toBytes = some (exVKey 4) := VKey.fromBytes_toBytes (exVKey_wf 4 (by norm_num))
+
+/-- accepted opening keys: the three points are on their curves, in the prime-order subgroups, and none
+    of them is the identity -/
+theorem openingkey_wf {bs : List Nat} {k : OpeningKeyM} (h : OpeningKeyM.fromBytes? bs = some k) :
+    (k.g.Valid ∧ k.g.torsionFree = true ∧ k.g ≠ .inf) ∧
+    (k.h.onCurve = true ∧ k.h.torsionFree = true ∧ k.h ≠ .inf) ∧
+    (k.xh.onCurve = true ∧ k.xh.torsionFree = true ∧ k.xh ≠ .inf) ∧ 240 ≤ bs.length :=
+  OpeningKeyM.fromBytes_wf' h
+
+example : OpeningKeyM.fromBytes? exOK.toBytes = some exOK := exOK_roundtrip
+
+/-- accepted verifiers: well-formed keys, an existing domain, `u64` fields, and the work bound (label and
+    index table are backed by bytes that were present) -/
+theorem verifier_wf {bs : List Nat} {v : VerifierM} (h : VerifierM.fromBytes bs = .ok v) :
+    v.vk.WF ∧
+    ((v.ok.g.Valid ∧ v.ok.g.torsionFree = true ∧ v.ok.g ≠ .inf) ∧
+     (v.ok.h.onCurve = true ∧ v.ok.h.torsionFree = true ∧ v.ok.h ≠ .inf) ∧
+     (v.ok.xh.onCurve = true ∧ v.ok.xh.torsionFree = true ∧ v.ok.xh ≠ .inf)) ∧
+    (Domain.new? v.vk.n).isSome = true ∧
+    (∀ i ∈ v.piIndexes, i < 2 ^ 64) ∧ v.size < 2 ^ 64 ∧ v.constraints < 2 ^ 64 ∧
+    48 + v.label.length + 968 + 240 + 8 * v.piIndexes.length ≤ bs.length :=
+  VerifierM.fromBytes_wf h
+
+example : VerifierM.fromBytes exVerifier.toBytes = .ok exVerifier := exVerifier_roundtrip
+
+/-- the error is exactly `notEnoughBytes` when the header is incomplete or the announced lengths
+    (label + verifier key + opening key + 8·#indices) exceed what follows the header — decided before
+    any payload byte is touched -/
+theorem verifier_not_enough_bytes {bs : List Nat}
+    (h : bs.length < 48 ∨ (bs.drop 48).length < bytesToNatBE (bs.take 8) + bytesToNatBE ((bs.drop 8).take 8) +
+      bytesToNatBE ((bs.drop 16).take 8) + bytesToNatBE ((bs.drop 24).take 8) * 8) :
+    VerifierM.fromBytes bs = .error .notEnoughBytes := by
+  by_cases hlen : bs.length < 48
+  · exact VerifierM.fromBytes_short hlen
+  · rcases h with h | h
+    · exact absurd h hlen
+    · exact VerifierM.fromBytes_announced_too_long hlen h
+
+example : ([1, 2, 3] : List Nat).length < 48 := by decide
+
+/-! ### prover side -/
+
+/-- accepted evaluation vectors: the serialized domain is exactly `Domain.new? size`, `size` a power of
+    two (`< 2^32`), exactly `172 + 32·size` input bytes, `size` canonical scalars -/
+theorem evals_wf {bs : List Nat} {d : Domain} {ev : List Nat} (h : evalsFromBytes bs = .ok (d, ev)) :
+    Domain.new? (bytesToNatLE (bs.take 8)) = some d ∧ d.size = bytesToNatLE (bs.take 8) ∧
+    nextPow2' d.size = d.size ∧ (∃ j, j < 32 ∧ d.size = 2 ^ j) ∧
+    d.toBytes = bs.take 172 ∧ bs.length = 172 + 32 * d.size ∧
+    ev.length = d.size ∧ (∀ e ∈ ev, e < R) := by
+  obtain ⟨a, b, c, d', e, f, g, i, _⟩ := evalsFromBytes_wf h
+  exact ⟨a, b, c, d', e, f, g, i⟩
+
+example : ∃ (d : Domain) (ev : List Nat), evalsFromBytes (evalsToBytes d ev) = .ok (d, ev) := by
+  obtain ⟨d, ev, h1, h2, h3, _⟩ := exEvals
+  exact ⟨d, ev, evalsFromBytes_evalsToBytes h1 h2 h3⟩
+
+/-- the raw commit-key decoder accepts only non-empty keys of exactly `8 + 97·len` bytes, every point
+    reduced, on curve, torsion free -/
+theorem commitkey_raw_wf {bs : List Nat} {ck : List G1} (h : commitKeyFromRaw bs = .ok ck) :
+    ck ≠ [] ∧ 97 * ck.length + 8 = bs.length ∧ ck.length = bytesToNatLE (bs.take 8) ∧
+    ∀ p ∈ ck, p.Valid ∧ p.torsionFree = true := by
+  obtain ⟨a, b, c, d, _⟩ := commitKeyFromRaw_wf h
+  exact ⟨a, b, c, d⟩
+
+example : commitKeyFromRaw (commitKeyToRaw [G1.gen]) = .ok [G1.gen] :=
+  commitKeyFromRaw_toRaw (by simp) (by rw [USIZE_MAX_eq]; simp) (by
+    intro p hp; simp at hp; subst hp; exact gen_ok)
+
+/-- accepted prover keys (`PKeyRaw.WF`): `8n` a power of two with its domain, 15 polynomials of length
+    `≤ n` with entries `< R` and no trailing zero, 15 + 2 evaluation vectors of length `8n` with entries `< R` over the
+    canonical domain, `lin` and `vh` equal to their closed forms (`vh` of degree `n < 8n`); and the work
+    bound: every decoded scalar is backed by 32 input bytes -/
+theorem pkey_wf {bs : List Nat} {k : PKeyRaw} (h : PKeyRaw.fromBytes bs = .ok k) :
+    (∃ d8, k.WF d8) ∧ 32 * k.cells ≤ bs.length :=
+  PKeyRaw.fromBytes_wf h
+
+example : PKeyRaw.fromBytes exPKey.toBytes = .ok exPKey := exPKey_roundtrip
+
+/-- accepted provers: `size = nextPow2' constraints`, `key.n = size`, well-formed prover key, non-empty
+    well-formed commit key, well-formed verifier key, `vh` of length `8·size` with no zero entry (so the
+    model prover's slicing of `vh` is defined), and the work bound -/
+theorem prover_wf {bs : List Nat} {p : ProverM} (h : ProverM.fromBytes bs = .ok p) :
+    p.constraints ≤ 2 ^ 63 ∧ p.size = nextPow2' p.constraints ∧ p.key.n = p.size ∧
+    (∃ d8, p.key.WF d8) ∧
+    (p.ck ≠ [] ∧ ∀ q ∈ p.ck, q.Valid ∧ q.torsionFree = true) ∧ p.vk.WF ∧
+    (∃ d, Domain.new? p.constraints = some d ∧ d.size = p.size) ∧
+    p.key.vh.length = 8 * p.size ∧ (∀ x ∈ p.key.vh, x ≠ 0) ∧
+    p.label.length + 32 * p.key.cells + 97 * p.ck.length ≤ bs.length :=
+  ProverM.fromBytes_wf h
+
+example : ProverM.fromBytes exProver.toBytes = .ok exProver := exProver_roundtrip
+
+/-- accepted public parameters: well-formed opening key, every commit-key point reduced, on curve,
+    torsion free, each backed by 48 input bytes -/
+theorem pp_wf {bs : List Nat} {ok : OpeningKeyM} {ck : List G1} (h : ppFromBytes bs = .ok (ok, ck)) :
+    (ok.g.Valid ∧ ok.g.torsionFree = true ∧ ok.h.torsionFree = true ∧ ok.xh.torsionFree = true ∧
+      ok.g ≠ .inf ∧ ok.h ≠ .inf ∧ ok.xh ≠ .inf) ∧
+    (∀ p ∈ ck, p.Valid ∧ p.torsionFree = true) ∧ 240 + 48 * ck.length ≤ bs.length :=
+  ppFromBytes_wf h
+
+example : ppFromBytes (ppToBytes exOK [G1.gen]) = .ok (exOK, [G1.gen]) :=
+  ppFromBytes_ppToBytes exOK_roundtrip (by simp) (by intro p hp; simp at hp; subst hp; exact gen_ok)
+
 end Plonk.Props.C17
